@@ -160,7 +160,10 @@ func c13RunSeq(seq []int) []c13Verdict {
 func c13RegChange(p loP) c13Verdict { return c13RegChangeMode(p, "unregistered") }
 
 var c13RegModes = []string{"unregistered", "lookup-fails:" + world.FaultError, "lookup-fails:" + world.FaultCtxDeadline, "lookup-fails:" + world.FaultCtxCanceled,
-	"unregistered+lookup-fails:" + world.FaultError, "unregistered+lookup-fails:" + world.FaultCtxDeadline, "unregistered+lookup-fails:" + world.FaultCtxCanceled}
+	"unregistered+lookup-fails:" + world.FaultError, "unregistered+lookup-fails:" + world.FaultCtxDeadline, "unregistered+lookup-fails:" + world.FaultCtxCanceled,
+	// the registered SingleLogoutService list changes between the two requests: re-registered, or the registry's ServiceProvider
+	// object updated in place (Metadata replaced / edited); the second reply goes to the location registered THEN (or into the body)
+	"slo-moved", "slo-moved-in-place-replace", "slo-moved-in-place-edit", "slo-removed-in-place-replace", "slo-removed-in-place-edit"}
 
 // c13RegChangeMode: logout(p) ; [SP A unregistered] ; [the service-provider lookup of the next request fails] ; logout(p).
 // In every mode the issuer of the second request is not confirmed as a registered service provider.
@@ -168,6 +171,31 @@ func c13RegChangeMode(p loP, mode string) c13Verdict {
 	w, req, _ := loBuild(p)
 	w.Do(req)
 	_, req2, t := loBuild(p)
+	if strings.HasPrefix(mode, "slo-") {
+		if p.Issuer != "" {
+			return c13Verdict{Class: "registration-change:not-applicable"}
+		}
+		a := msg.SPA()
+		a.SLO = []msg.SLO{{Binding: msg.BindPost, Location: "https://sp-a-moved.example/slo/new"}}
+		want := a.SLO[0].Location
+		if strings.HasPrefix(mode, "slo-removed") {
+			a.SLO, want = nil, ""
+		}
+		switch {
+		case strings.HasSuffix(mode, "in-place-replace"):
+			w.Store.UpdateSPInPlace(a.EntityID, a.XML(), "replace")
+		case strings.HasSuffix(mode, "in-place-edit"):
+			w.Store.UpdateSPInPlace(a.EntityID, a.XML(), "edit")
+		default:
+			if _, err := w.Store.RegisterSP("app-a", a.XML()); err != nil {
+				panic(err)
+			}
+		}
+		if t.Decodable && t.IssuerRegistered {
+			t.ExpectTarget = want
+		}
+		return c13JudgeReply(w.Do(req2), t)
+	}
 	if strings.HasPrefix(mode, "unregistered") {
 		w.Store.UnregisterSP(msg.SPA().EntityID)
 	}
